@@ -542,6 +542,26 @@ func main() {
 		}
 	}
 
+	// constructors and the Registry's own requests
+	for i := 0; i < run.Scale(6000, 100000); i++ {
+		s := randomValid(r)
+		for k := r.Intn(3); k > 0; k-- {
+			s = mutate(r, s)
+		}
+		newRepositoryCase(s)
+		name := randRegistry(r)
+		if r.Bool() {
+			name = common.Pick(r, []string{"localhost:5000", "docker.io", "registry.example.com", "[::1]:5000", "UP.example"})
+		}
+		sub := common.Pick(r, []string{"a", "library/x", "a__b/c.d", "Up", "a//b", "", "a:b", "a@b", "x-y/z", "-a"})
+		registryRepositoryCase(name, sub)
+	}
+	for _, name := range []string{"localhost:5000", "docker.io", "registry.example.com", "127.0.0.1:443", "[::1]:5000", "UP.example"} {
+		for i := 0; i < run.Scale(300, 5000); i++ {
+			regOpCase(name, common.Pick(r, []string{"rping", "rcatalog"}), r.Bool(), common.Pick(r, lasts), common.Pick(r, []int{0, 0, -1, 1, 50}))
+		}
+	}
+
 	// URL builders on accepted references
 	for i := 0; i < run.Scale(8000, 100000); i++ {
 		ref, err := registry.ParseReference(randomValid(r))
@@ -562,7 +582,7 @@ func coverageFloors() {
 		"validate_ok": 300, "registry": 100000, "registry_ok": 3000, "registry_ok_bracket": 200, "constructed": 20000, "constructed_accept": 5000, "parse_ok": 2000, "parse_judged_accept": 1500, "parse_judged_reject": 50000, "repo_ok": 2000, "repo_err": 5000,
 		"repo_other_path_rejected": 3000, "component_repo_ok": 5000, "component_digest_ok": 3000, "component_tag_ok": 500,
 		"op_mresolve": 500, "op_mfetchref": 500, "op_tag": 500, "op_pushref": 500, "op_bresolve": 500, "op_bfetchref": 500,
-		"descop_judged": 3000, "descop_dmfetch": 300, "descop_dmdelete": 300, "descop_dbfetch": 300, "descop_dbdelete": 300, "descop_dreferrers": 300, "descop_dmount": 300, "descop_dbpush": 300, "descop_dtags": 300, "op_sent": 3000, "op_refused": 3000, "op_ground_truth": 500,
+		"newrepo_ok": 500, "newregistry_ok": 1000, "registry_repository_ok": 300, "regop_rping": 300, "regop_rcatalog": 300, "descop_judged": 3000, "descop_dmfetch": 300, "descop_dmdelete": 300, "descop_dbfetch": 300, "descop_dbdelete": 300, "descop_dreferrers": 300, "descop_dmount": 300, "descop_dbpush": 300, "descop_dtags": 300, "op_sent": 3000, "op_refused": 3000, "op_ground_truth": 500,
 		"url_manifest": 100, "url_blob": 100, "url_referrers": 100, "url_taglist": 100, "url_upload": 100, "url_base": 100, "url_catalog": 100, "url_repobase": 100,
 		"url_query_referrers": 100, "url_query_mount": 100,
 	}
@@ -600,6 +620,15 @@ func replay(path string) {
 				descOpCase(registry.Reference{Registry: c["registry"], Repository: c["repository"]}, c["kind"], c["plain"] == "true", c["reference"], c["input"], n)
 			}
 			forcedVariant = -1
+		case "N":
+			if c["kind"] == "repo" {
+				newRepositoryCase(c["input"])
+			} else {
+				registryRepositoryCase(c["input"], c["reference"])
+			}
+		case "E":
+			n, _ := strconv.Atoi(c["n"])
+			regOpCase(c["registry"], c["kind"], c["plain"] == "true", c["input"], n)
 		case "G":
 			registryCase(c["input"])
 		case "F":
